@@ -63,14 +63,16 @@ class HarnessError(Exception):
     """Something went wrong inside /verif code; never reported as a violation."""
 
 
-def raised_in_sut(exc, repo_root):
+def raised_in_sut(exc, repo_root, also=()):
     """True iff the traceback of exc passes through the repository's onsager package
-    (or code that it called), i.e. the exception was raised by or below the SUT."""
+    (or code that it called), i.e. the exception was raised by or below the SUT.
+    `also`: path fragments of packages that only ever run on behalf of the SUT (e.g. numba
+    compiling a jitclass method lazily: the onsager source frame is then not on the stack)."""
     pkg = os.path.join(os.path.realpath(repo_root), "onsager") + os.sep
     tb = exc.__traceback__
     while tb is not None:
         fn = os.path.realpath(tb.tb_frame.f_code.co_filename)
-        if fn.startswith(pkg):
+        if fn.startswith(pkg) or any(a in fn for a in also):
             return True
         tb = tb.tb_next
     return False
@@ -177,7 +179,7 @@ def execute(engine, world, ops=None, rng=None, nops=0, repo_root="/repo"):
         except HarnessError:
             raise
         except Exception as e:  # classify: raised below the SUT, or in the harness?
-            if raised_in_sut(e, repo_root):
+            if raised_in_sut(e, repo_root, getattr(engine, "sut_packages", ())):
                 v = Violation(engine.prop, "unexpected-exception",
                               "{}: {}\n{}".format(type(e).__name__, e,
                                                   "".join(traceback.format_tb(e.__traceback__)[-4:])))
